@@ -891,10 +891,12 @@ static void gen_expr(Node *node) {
     gen_expr(node->cond);
     cmp_zero(node->cond->ty);
     println("  je .L.else.%d", c);
-    gen_expr(node->then);
+    // If one arm is void, the value of the other arm is not used.
+    bool is_void = node->ty->kind == TY_VOID;
+    is_void ? gen_discard(node->then) : gen_expr(node->then);
     println("  jmp .L.end.%d", c);
     println(".L.else.%d:", c);
-    gen_expr(node->els);
+    is_void ? gen_discard(node->els) : gen_expr(node->els);
     println(".L.end.%d:", c);
     return;
   }
